@@ -23,6 +23,8 @@ type Recorder struct {
 	seq    int
 	traces int
 	events int
+	// Tap, when set, receives a copy of every line written (without newline)
+	Tap func(line []byte)
 }
 
 func New(path string) (*Recorder, error) {
@@ -47,7 +49,7 @@ func (r *Recorder) emitLocked(ev string, fields F) {
 	}
 	m["ev"] = ev
 	r.seq++
-	m["seq"] = r.seq
+	m["n"] = r.seq
 	b, err := json.Marshal(m)
 	if err != nil {
 		panic(err)
@@ -55,6 +57,9 @@ func (r *Recorder) emitLocked(ev string, fields F) {
 	r.w.Write(b)
 	r.w.WriteByte('\n')
 	r.events++
+	if r.Tap != nil {
+		r.Tap(b)
+	}
 }
 
 // Reset starts a new trace inside the same file (TraceReset action of the trace specs).
@@ -70,6 +75,17 @@ func (r *Recorder) Locked(fn func(emit func(ev string, fields F))) {
 	r.mu.Lock()
 	defer r.mu.Unlock()
 	fn(r.emitLocked)
+}
+
+// Raw writes pre-rendered lines (used to repeat a prefix of an earlier trace).
+func (r *Recorder) Raw(lines [][]byte) {
+	r.mu.Lock()
+	defer r.mu.Unlock()
+	for _, b := range lines {
+		r.w.Write(b)
+		r.w.WriteByte('\n')
+		r.events++
+	}
 }
 
 func (r *Recorder) Counts() (traces, events int) {
